@@ -373,7 +373,7 @@ def r5(cx, run):
         run.check(good, "R5", key + " bytes_written", "bytes_written := %s" % sym.show(e),
                   "bytes_written is not the sink helper's counter `%s`: %s" % (an.counter_field, sym.show(e)), mir.loc_of(st))
         # duration: depends on a pure local function that reads both queues
-        e = sym.expr(b, fields["duration_secs"])
+        e = sym.expand_phi(b, sym.expr(b, fields["duration_secs"]))
         callees = {t[3] for t in sym.walk(e) if isinstance(t, tuple) and t and t[0] == "call" and len(t) > 3 and t[3] in u.bodies}
         reads = set()
         pure = True
